@@ -50,6 +50,31 @@ theorem C03_json_closed_rpms (h : List RpmsArgs) : jsonRep (runRpms empty h) = t
   | nil => intro s hs; exact hs
   | cons a rest ih => intro s hs; exact ih _ (rpms_add_jsonRep s a hs)
 
+/-- key sorting commutes with every chain of lookups: whatever `m[k1][k2]…` read in the built mapping, it reads the
+same (key-sorted) value in the re-read one, and what was absent stays absent -/
+theorem getPath_canon : ∀ (path : List Str) (v : PyVal), jsonRep v = true →
+    getPath (PyVal.canon v) path = (getPath v path).map PyVal.canon := by
+  intro path
+  induction path with
+  | nil => intro v _; simp [getPath_nil]
+  | cons k ks ih =>
+    intro v hv
+    cases v with
+    | dict kvs =>
+      simp only [jsonRep] at hv
+      simp only [PyVal.canon]
+      rw [getPath_dict_cons, getPath_dict_cons, lookup_sortKvs_canonKvs kvs k hv]
+      cases hl : lookup kvs k with
+      | none => rfl
+      | some c => simpa using ih c (jsonRep_of_lookup kvs k c hv hl)
+    | list xs => simp [PyVal.canon, getPath]
+    | none => simp [PyVal.canon, getPath]
+    | bool b => simp [PyVal.canon, getPath]
+    | int n => simp [PyVal.canon, getPath]
+    | float r => simp [PyVal.canon, getPath]
+    | str t => simp [PyVal.canon, getPath]
+    | other t => simp [PyVal.canon, getPath]
+
 /-- the write/read/write cycle on ANY JSON-representable mapping (e.g. one that was itself loaded) -/
 theorem C03_roundtrip_payload (k : Kind) (v0 : PyVal) (c : ComposeT) (p : PyVal) (hp : jsonRep p = true)
     (hv : composeValidate c.toObj = .ok ()) :
@@ -82,6 +107,51 @@ theorem C03_roundtrip (k : Kind) (ops : List AddOp) (hargs : ∀ op ∈ ops, op.
       ∧ rt.reloaded.version = .str currentVersion
       ∧ rt.text2 = rt.text1 :=
   C03_roundtrip_payload k v0 c (runOps empty ops) (C03_json_closed ops hargs) hv
+
+/-- **Pointwise form of "exactly the same mapping"** — for every history and every chain of keys
+`[variant][arch][…]…`: the re-read manifest holds there the key-sorted value the built manifest held (in particular
+the same strings, numbers and None), and nothing where the built manifest held nothing. -/
+theorem C03_pointwise (k : Kind) (ops : List AddOp) (hargs : ∀ op ∈ ops, op.argsRep = true)
+    (v0 : PyVal) (c : ComposeT) (hv : composeValidate c.toObj = .ok ()) (path : List Str) :
+    ∃ rt, roundtrip k { version := v0, compose := c.toObj, payload := runOps empty ops } = .ok rt
+      ∧ getPath rt.reloaded.payload path = (getPath (runOps empty ops) path).map PyVal.canon := by
+  obtain ⟨rt, h1, h2, _⟩ := C03_roundtrip k ops hargs v0 c hv
+  exact ⟨rt, h1, by rw [h2]; exact getPath_canon path _ (C03_json_closed ops hargs)⟩
+
+/-- **Byte level** — with the JSON parser as a parameter: for ANY `parse` that gives back the document that was
+written (dict order = order of the text; this is the one assumption on the stdlib, stated on the document at hand),
+`loads(dumps(m))` succeeds and `dumps` of the result is the same text, byte for byte. -/
+theorem C03_bytes (parse : Str → Except Err PyVal) (k : Kind) (ops : List AddOp)
+    (hargs : ∀ op ∈ ops, op.argsRep = true) (v0 : PyVal) (c : ComposeT) (hv : composeValidate c.toObj = .ok ())
+    (hparse : ∀ doc, (dumpDoc k { version := v0, compose := c.toObj, payload := runOps empty ops }).2 = .ok doc →
+        parse (JsonText.dumps doc) = .ok (reparse doc)) :
+    ∃ t m2, (dumps k { version := v0, compose := c.toObj, payload := runOps empty ops }).2 = .ok t
+      ∧ (parse t).bind (deserialize k) = .ok m2
+      ∧ (dumps k m2).2 = .ok t := by
+  obtain ⟨rt, h1, _, _, _, _, h6⟩ := C03_roundtrip k ops hargs v0 c hv
+  unfold roundtrip at h1
+  cases hd : (dumpDoc k { version := v0, compose := c.toObj, payload := runOps empty ops }).2 with
+  | error e => rw [hd] at h1; cases h1
+  | ok doc =>
+    rw [hd] at h1
+    simp only at h1
+    cases hds : deserialize k (reparse doc) with
+    | error e => rw [hds] at h1; cases h1
+    | ok m2 =>
+      rw [hds] at h1
+      simp only at h1
+      cases hd2 : (dumpDoc k m2).2 with
+      | error e => rw [hd2] at h1; cases h1
+      | ok doc2 =>
+        rw [hd2] at h1
+        simp only [Except.ok.injEq] at h1
+        subst h1
+        simp only at h6
+        refine ⟨JsonText.dumps doc, m2, ?_, ?_, ?_⟩
+        · simp [dumps, hd, Except.map]
+        · rw [hparse doc hd]
+          exact hds
+        · simp [dumps, hd2, Except.map, h6]
 
 /-- the normalisation is the identity on the compose sections that a reader can produce: re-reading a re-read
 manifest changes nothing at all -/
@@ -133,6 +203,13 @@ example : composeValidate exampleComposeNoLabel.toObj = .ok ()
   constructor
   · decide +kernel
   · decide
+
+/-- the parser hypothesis of `C03_bytes` is satisfiable for every manifest (it constrains `parse` on one text) -/
+example (k : Kind) (m : Manifest) :
+    ∃ parse : Str → Except Err PyVal, ∀ doc, (dumpDoc k m).2 = .ok doc → parse (JsonText.dumps doc) = .ok (reparse doc) := by
+  cases h : (dumpDoc k m).2 with
+  | error e => exact ⟨fun _ => .error .other, by intro doc hd; cases hd⟩
+  | ok d => exact ⟨fun _ => .ok (reparse d), by intro doc hd; cases hd; rfl⟩
 
 def exampleOps : List AddOp :=
   [.rpms { variant := lit "Server", arch := lit "x86_64", nevra := lit "foo-bar-1:2.0-3.el7.x86_64.rpm",
